@@ -45,7 +45,11 @@ func skipCopy(rel string, info os.FileInfo) bool {
 
 // Prepare copies /repo's working tree, builds the runtime library, the plain
 // compiler and the simulated compiler. wantPlain=false skips the plain build.
-func Prepare(tag string, wantPlain bool) (*Build, error) {
+func Prepare(tag string, wantPlain bool) (*Build, error) { return PrepareOpt(tag, wantPlain, true) }
+
+// PrepareOpt is Prepare with the simulated build optional (engine C only needs
+// the plain compiler and the runtime library).
+func PrepareOpt(tag string, wantPlain, wantSim bool) (*Build, error) {
 	t0 := time.Now()
 	s, err := core.NewScratch(tag)
 	if err != nil {
@@ -61,8 +65,10 @@ func Prepare(tag string, wantPlain bool) (*Build, error) {
 	if err := core.CopyTree(core.RepoDir, plainSrc, skipCopy); err != nil {
 		return b, fmt.Errorf("copy repo: %w", err)
 	}
-	if err := core.CopyTree(plainSrc, simSrc, nil); err != nil {
-		return b, fmt.Errorf("copy repo: %w", err)
+	if wantSim {
+		if err := core.CopyTree(plainSrc, simSrc, nil); err != nil {
+			return b, fmt.Errorf("copy repo: %w", err)
+		}
 	}
 
 	b.Stub = filepath.Join(s.Dir, "toolstub")
@@ -92,6 +98,9 @@ func Prepare(tag string, wantPlain bool) (*Build, error) {
 	}()
 	go func() {
 		defer wg.Done()
+		if !wantSim {
+			return
+		}
 		if err := core.CopyTree(filepath.Join(verif, "simsrc", "zsim"), filepath.Join(simSrc, "zsim"), nil); err != nil {
 			errSim = err
 			return
